@@ -36,9 +36,48 @@ def big_block(payload_len):
     return refs.rlp_list(fields).hex()
 
 
+def rlp_any(x):
+    return refs.rlp_wrap_list(b"".join(rlp_any(i) for i in x)) if isinstance(x, list) \
+        else refs.rlp_str(x)
+
+
+def mutated_block(d):
+    """A header as a field list with some fields replaced (nested lists, empty, oversized...)."""
+    nf = d["nf"]
+    fields = [bytes([i + 1]) * (32 if i < 4 else 3) for i in range(nf)]
+    if nf >= 17:
+        base = nf - (3 if nf >= 19 else 1)
+        fields[base] = b"\x01" * 80
+        if nf >= 19:
+            fields[base + 1] = b"\x02" * 64
+            fields[base + 2] = bytes(8) + b"\x03" * 32 + b"RSKBLOCK:" + b"\x04" * 40
+    for idx, kind in d["muts"]:
+        if not fields:
+            break
+        i = idx % len(fields)
+        fields[i] = {"list": [b"x"], "emptylist": [], "deep": [[[b"x"]]], "empty": b"",
+                     "long": b"\x05" * 300, "one": b"\x01", "high": b"\x80",
+                     "listlist": [[b"a"], [b"b"]], "short-cb": b"\x01" * 10,
+                     "cb-39": b"\x01" * 39, "cb-40": b"\x01" * 40,
+                     "cb-41": b"\x01" * 41}[kind]
+    return rlp_any(fields).hex()
+
+
 def render(d):
     """line descriptor -> request line bytes (without the newline)."""
     k = d["k"]
+    if k == "blockmut":
+        blk = mutated_block(d)
+        if d["where"] == "advance":
+            r = {"command": "advanceBlockchain", "version": 5,
+                 "blocks": [blk, mw.mkblock(2)], "brothers": [[], []]}
+        elif d["where"] == "brother":
+            r = {"command": "advanceBlockchain", "version": 5,
+                 "blocks": [mw.mkblock(1)], "brothers": [[blk, mw.mkblock(9)]]}
+        else:
+            r = {"command": "updateAncestorBlock", "version": 5,
+                 "blocks": [mw.mkblock(1), blk]}
+        return json.dumps(r).encode()
     if k == "raw":
         return d["b"].replace(b"\n", b" ")
     if k == "json":
@@ -127,7 +166,7 @@ def hostile(draw):
 
 @st.composite
 def line(draw):
-    k = draw(st.integers(0, 19))
+    k = draw(st.integers(0, 22))
     if k <= 6:
         c = draw(c02.cases("quick"))
         return {"k": "json", "v": c["req"]}
@@ -173,7 +212,14 @@ def line(draw):
                  "proof-nodes": [255, 256, 1000], "proof-node-size": [255, 256, 1000],
                  "receipt": [55, 56, 70000], "tx": [1, 100000], "many-blocks": [256, 1000]}
         return {"k": "oversize", "what": what, "n": draw(st.sampled_from(sizes[what]))}
-    return {"k": "json", "v": draw(hostile())}
+    if k == 19:
+        return {"k": "json", "v": draw(hostile())}
+    return {"k": "blockmut", "where": draw(st.sampled_from(["advance", "brother", "ancestor"])),
+            "nf": draw(st.sampled_from([0, 1, 16, 17, 18, 19, 20, 21])),
+            "muts": draw(st.lists(st.tuples(
+                st.integers(0, 20), st.sampled_from(
+                    ["list", "emptylist", "deep", "empty", "long", "one", "high", "listlist",
+                     "short-cb", "cb-39", "cb-40", "cb-41"])), max_size=3))}
 
 
 @st.composite
@@ -315,14 +361,34 @@ REQUIRED_LABELS = {
     t: ["v5", "v1", "kind:json", "kind:raw", "kind:nest", "kind:nest-in-req", "kind:digits",
         "kind:oversize:block-advance", "kind:oversize:block-ancestor",
         "kind:oversize:brothers-many", "kind:oversize:witness", "kind:oversize:proof-nodes",
-        "kind:oversize:brother-big", "unparseable", "code:0", "code:-901", "code:-902",
+        "kind:oversize:brother-big", "kind:blockmut", "unparseable", "code:0", "code:-901", "code:-902",
         "code:-903", "code:-904", "code:-101", "code:-102", "code:-103", "code:-204",
         "code:-205", "code:-301", "tcp"]
     for t in ("quick", "thorough")}
 
 
+class SingleMutationLines:
+    """Every single mutation of every documented request (C02's complete enumeration), each
+    followed by a plain version request on the same manager."""
+
+    def __init__(self, tier=None, seed=None):
+        self.sm = c02.SingleMutations()
+
+    def __len__(self):
+        return len(self.sm)
+
+    def __getitem__(self, i):
+        c = self.sm[i]
+        return {"v1": c["mode"] == "v1",
+                "lines": [{"k": "json", "v": c["req"]}, {"k": "json", "v": {"command": "version"}}]}
+
+
 def stages(tier):
+    from vlib.runner import EnumStage
     return [
+        EnumStage("single-mutations", SingleMutationLines, run_case,
+                  exhaustive={"quick": True, "thorough": True},
+                  budget_s={"quick": 100, "thorough": 300}),
         HypStage("handler", lambda t: cases(t), run_case, {"quick": 400, "thorough": 8000},
                  budget_s={"quick": 100, "thorough": 900}),
         HypStage("tcp", lambda t: cases(t), run_tcp, {"quick": 12, "thorough": 200},
